@@ -268,6 +268,15 @@ add("C05", "TLC on Calculus.tla (programs with re-used slots = shared Python obj
     "specification at points different from the optimiser's single random self-check; the original must be unaffected.",
     TRUST + "a failing self-check of the optimiser on programs that are not finite on standard-normal inputs (sqrt / log of negative numbers) counts as a refusal.")
 
+add("C06", "TLC on FieldArith.tla (contractions of fields over tuples of spaces with exact pixel volumes in complex rationals; laws integrate = sum . weight, mean V = integrate, vdot(x,x) = |x|^2, two-step contraction) + replay of every instance into nifty.cl.Field / MultiField",
+    "104 instances per value mode (all tuples of one or two spaces out of two regular grids, a power space with volumes 1/4, 1/2, 1/4 and an "
+    "unstructured domain; every non-empty set of contracted spaces; two value patterns) carry the exact results of sum, prod, vdot (conjugate-"
+    "linear in the first argument), integrate, total volume, mean, variance, weight(1, -1, 2) and the norms. Replayed for int64, float64 and "
+    "complex128 values: partial contractions (result domain checked), the scalar s_* variants, point-wise arithmetic and comparisons against "
+    "NumPy, MultiField dot product / norm / sum / arithmetic against concatenated arrays, volume operations over the unstructured domain must "
+    "fail, operands on a different domain of the same shape must be rejected.",
+    TRUST + "sphere pixelisations enter through C08's volume laws only.")
+
 
 def main():
     props = [json.loads(l) for l in open(os.path.join(HERE, "properties.jsonl"))]
